@@ -14,6 +14,7 @@ import (
 	"fmt"
 	"os"
 	"sort"
+	"strconv"
 	"strings"
 	"testing"
 
@@ -130,6 +131,10 @@ func drawConfig(tp *kernel.Tape, tier string) (Config, [][]byte) {
 	c.FLoad = tp.Choose("cfg.f.load", 2) == 1
 	c.FLost = tp.Choose("cfg.f.lost", 2) == 1
 	c.FaultW = []int{10, 4, 25}[tp.Choose("cfg.frate", 3)]
+	if v, err := strconv.Atoi(os.Getenv("TRIESIM_FORCE_CACHE")); err == nil {
+		// analysis aid: pin CachedNodesCount (and keep it across reloads) to ask "does X need a small cache?"
+		c.Cache, c.Reconfig = v, false
+	}
 	return c, pool
 }
 
@@ -450,7 +455,9 @@ func (s *sim) rearm() {
 	}
 	s.rearmLater = false
 	page, partial, cached, deferred := s.trie.VerifTailPage()
-	if !(partial && !cached && !deferred) {
+	if !(partial && !cached && !deferred && s.d.has(page)) {
+		// no hazard: page-aligned, or still cached, or its load is scheduled, or nothing of it is stored
+		// (a fresh trie starts at a non-aligned identifier without any stored page)
 		s.d.watchOn = false
 		return
 	}
